@@ -20,12 +20,26 @@ Theorem c17_statuses_pinned :
 Proof. vm_compute. repeat split. Qed.
 
 (* form / leave / bring-up complete only after BOTH the command was accepted and the matching
-   stack-status event was processed after the operation was issued *)
+   stack-status event was processed after the operation was issued.
+   (As first written this theorem carried the extra hypothesis
+      In (EReply true false) body \/ In (EReply true true) body
+    which is redundant -- c17_complete_needs_accept derives it -- and only weakened the statement; it is
+    dropped.  No counterexample: the original was true, just weaker.) *)
 Theorem c17_complete_iff : forall st body k r, idle st -> k <> OScan -> ~ (exists k', In (EStart k') body) ->
   In (ODone k (DoneOk r)) (concat (snd (erun st (EStart k :: body)))) ->
-  In (EReply true false) body \/ In (EReply true true) body ->
   exists l, In (ECallbacks l) body /\ In (CStatus (wanted k)) l.
 Proof. exact complete_needs_event. Qed.
+
+(* ORDER: the successful completion is output at a definite step [e] of the body, and the accepting reply
+   and (for form / leave / bring-up) the matching batch both occur after the EStart and no later than
+   that step (the completing step is itself whichever of the two came last) *)
+Theorem c17_complete_order : forall st body k r, idle st -> ~ (exists k', In (EStart k') body) ->
+  In (ODone k (DoneOk r)) (concat (snd (erun st (EStart k :: body)))) ->
+  exists b1 e b2, body = b1 ++ e :: b2 /\
+    In (ODone k (DoneOk r)) (snd (estep (fst (erun st (EStart k :: b1))) e)) /\
+    (exists nj, In (EReply true nj) (b1 ++ [e])) /\
+    (k <> OScan -> exists l, In (ECallbacks l) (b1 ++ [e]) /\ In (CStatus (wanted k)) l).
+Proof. exact complete_order. Qed.
 
 Theorem c17_complete_needs_accept : forall st body k r, idle st -> ~ (exists k', In (EStart k') body) ->
   In (ODone k (DoneOk r)) (concat (snd (erun st (EStart k :: body)))) ->
